@@ -23,6 +23,9 @@ pub trait Config: Sync {
     fn parse_msg_ok(&self, bytes: &[u8]) -> PRes<()>;
     /// `ShipType::parse(code)` rendered, and `u8::from` of it when present
     fn shiptype_parse(&self, code: u8) -> PRes<(String, Option<u8>)>;
+    /// the rate of turn of a type 1-3 message through its PUBLIC accessors only:
+    /// None = no message / not a position report; Some(None) = absent; Some(Some((rate, direction)))
+    fn rot_probe(&self, bytes: &[u8]) -> Option<Option<(Option<f32>, String)>>;
     /// canonical one-line renderings for the fidelity pass (canon_body.rs, shared with exec_real)
     fn canon_history(&self, lines: &[(Vec<u8>, bool)]) -> Vec<String>;
     fn canon_parse(&self, bytes: &[u8]) -> String;
